@@ -260,16 +260,26 @@ static void exec_op(op_t *op) {
 		if (n_entered < 64) entered_tok[n_entered++] = (int)op->b;
 		break;
 	case K_GWAIT: case K_SWAIT: case K_BWAIT: {
-		clockid_t clk; uint64_t t0, t1; long r;
-		struct timespec ts; clock_gettime(op->c == 3 || op->c == 5 ? CLOCK_REALTIME : op->c == 4 ? CLOCK_BOOTTIME : CLOCK_MONOTONIC, &ts);
-		t0 = (uint64_t)ts.tv_sec * 1000000000ull + (uint64_t)ts.tv_nsec;
-		dispatch_time_t when = make_deadline(op->c, op->d, &clk);
+		clockid_t clk; long r;
+		// S3 measurement. The elapsed time is taken on three clocks (from reads BEFORE the deadline is computed to reads AFTER the call
+		// returned) and the largest is reported: the library converts monotonic deadlines to CLOCK_REALTIME for sem_timedwait, so a step
+		// of one clock by the environment must not look like an early return; a timeout computed wrongly is short on all of them.
+		// For a timed wait the thread is also held on one CPU between the reads (per-CPU clock skew after a VM restore).
+		cpu_set_t oldmask; int pinned = 0;
+		if (op->c >= 2 && P.mode != MODE_F1 && P.mode != MODE_P1 && sched_getaffinity(0, sizeof oldmask, &oldmask) == 0) {
+			int c = sched_getcpu();
+			if (c >= 0) { cpu_set_t one; CPU_ZERO(&one); CPU_SET(c, &one); pinned = sched_setaffinity(0, sizeof one, &one) == 0; }
+		}
+		static const clockid_t CK[3] = { CLOCK_MONOTONIC, CLOCK_REALTIME, CLOCK_BOOTTIME };
+		uint64_t t0[3], el = 0;
+		for (int i = 0; i < 3; i++) t0[i] = clock_ns(CK[i]);
+		dispatch_time_t when = make_deadline(op->c, op->d, &clk); (void)clk;
 		logev(EV_CALL, op->id, (int32_t)op->c, op->d);
 		if (op->kind == K_GWAIT) r = dispatch_group_wait(G[op->a], when);
 		else if (op->kind == K_BWAIT) {
 			// API preconditions (client crashes otherwise): one waiter at a time, and no wait after a wait that succeeded
 			int e = 0;
-			if (!atomic_compare_exchange_strong(&blk_wait_state[op->a], &e, 1)) { logev(EV_SKIP, op->id, (int32_t)op->c, e); break; }
+			if (!atomic_compare_exchange_strong(&blk_wait_state[op->a], &e, 1)) { logev(EV_SKIP, op->id, (int32_t)op->c, e); if (pinned) sched_setaffinity(0, sizeof oldmask, &oldmask); break; }
 			r = dispatch_block_wait(BLK[op->a], when);
 			atomic_store(&blk_wait_state[op->a], r == 0 ? 2 : 0);
 		}
@@ -278,9 +288,10 @@ static void exec_op(op_t *op) {
 			r = dispatch_semaphore_wait(SEM[op->a], when);
 			if (op->c == 0) atomic_fetch_sub(&sem_fwaiters[op->a], 1);
 		}
-		t1 = clock_ns(clk);
+		for (int i = 0; i < 3; i++) { uint64_t t1 = clock_ns(CK[i]); if (t1 > t0[i] && t1 - t0[i] > el) el = t1 - t0[i]; }
+		if (pinned) sched_setaffinity(0, sizeof oldmask, &oldmask);
 		logev(EV_RET, op->id, (int32_t)op->c, r);
-		logev(EV_VAL, op->id, 1, (int64_t)(t1 - t0));
+		logev(EV_VAL, op->id, 1, (int64_t)el);
 		if (op->kind == K_SWAIT && r == 0 && opt_payload) {
 			long k = atomic_fetch_add(&sem_succ[op->a], 1) + 1;
 			long vis = 0;
